@@ -12,6 +12,7 @@ mod c12;
 mod gen;
 mod seqs;
 mod c19;
+mod c20;
 mod c16;
 mod kmers;
 mod val;
@@ -64,6 +65,7 @@ fn main() {
         "C09" => c09::c09(&mut out, &mut rng, &tier),
         "C05" => c05::c05(&mut out, &mut rng, &tier),
         "C06" => c05::c06_filter(&mut out, &mut rng, &tier),
+        "C20" => c20::c20(&mut out, &mut rng, &tier),
         _ => {
             eprintln!("unknown property {}", prop);
             std::process::exit(2);
